@@ -51,6 +51,19 @@ def run(ctx):
                 ctx.count("unusable_records_inserted")
                 nrec[k] = nrec.get(k, 0) + 1
                 continue
+            if rng.random() < 0.05:
+                # an entry made through the raw index API whose integrity lists several hashes (what other cacache
+                # implementations write): listed and looked up with the integrity exactly as recorded
+                d9 = str(j).encode()
+                hs9 = rng.sample(["sha512", "sha384", "sha256", "sha1"], rng.choice([2, 3]))
+                sri9 = " ".join(ref.sri(a9, d9) for a9 in hs9)
+                steps.append({"mode": m, "raw_entry": True,
+                              "req": {"op": "index_insert", "cache": cache, "key": k,
+                                      "opts": {"sri": sri9, "time": str(gen.time_value(rng)), "size": len(d9)}}})
+                ctx.count("raw_multi_hash_entries")
+                pattern.setdefault(k, []).append("W")
+                nrec[k] = nrec.get(k, 0) + 1
+                continue
             if tomb_first or r < 0.3:
                 steps.append({"mode": m, "req": {"op": "remove", "cache": cache, "key": k}})
                 pattern.setdefault(k, []).append("T")
